@@ -59,7 +59,9 @@ class C14(Prop):
             lv = rng.choice(sc.LEVELS)
             pairs = [sc.gen_pair(rng, kind, -1.0, lv) for _ in range(3)]  # positive pairs
             pairs = [(abs(y) + 0.5, abs(z) + 0.5) for y, z in pairs]
-            pairs = [p for p in pairs if sc.far_enough(*p)] or [(1.5, 2.5)]  # keep out of the cancellation regime
+            # keep out of the cancellation regime: at degree 1e-6 the general formula subtracts terms of size 1e6, i.e. it carries an
+            # absolute error of about 1e-10, against a score of about (|z - y| / y)^2 - pairs closer than 5 % are left out
+            pairs = [p for p in pairs if p[0] == p[1] or abs(p[1] - p[0]) >= 0.05 * max(abs(p[0]), abs(p[1]))] or [(1.5, 2.5)]
             yield {"stream": "limit", "kind": kind, "h": h0, "level": lv, "y": [p[0] for p in pairs], "z": [p[1] for p in pairs]}
 
     def impl(self, case):
